@@ -3,12 +3,22 @@
     [Print Assumptions].  Model functions are the line-by-line transcription of
     src/offset/local/tz_info/{timezone,rule}.rs (Model/TzLookup.v, Model/TzRule.v) and of the glue
     in src/offset/local/{unix,mod}.rs and src/offset/mod.rs (Model/C05.v), with trapping integer
-    arithmetic ([Val]/[Panic]) and [Result] values ([Ok]/[Err]). *)
+    arithmetic ([Val]/[Panic]) and [Result] values ([Ok]/[Err]).
+
+    Coverage of "wall clock -> candidates" against the oracle Spec/Zone.v [instants_of_wall]:
+    table-only zones (C05_classification_table, C05_roundtrip_table), TZ strings / rule-only zones
+    (C05_rule_zone_classification), COMPOSITE zones = table + footer rule
+    (C05_composite_classification, C05_roundtrip_composite), and the value level of
+    Local.from_local_datetime (the C05_from_local_values theorems).  Still open: the rule round trip ON the
+    excepted boundary seconds (the property excepts them); composite zones whose last table
+    transition, read on the clocks involved, straddles a calendar-year boundary (clause (1) of
+    [footer_continues]; no such zone in the system database); footer rules of the Fixed kind after
+    a table are not given a separate theorem (the scan result is then the table's, plus Single). *)
 From Coq Require Import ZArith List Bool.
 From V Require Import Base.Int Base.IO.
 From V Require Import Spec.Zone Proofs.TzCommon.
 From V Require Spec.Gregorian.
-From V Require Import Model.TzParser Model.TzRule Model.TzLookup Model.C05 Proofs.C05 Proofs.C05Composite.
+From V Require Import Model.TzParser Model.TzRule Model.TzLookup Model.C05 Proofs.C05 Proofs.C05Composite Proofs.C05Glue.
 From V Require Model.Date Model.DateTime.
 Import ListNotations.
 Open Scope Z_scope.
@@ -393,6 +403,108 @@ Theorem C05_composite_example_readings :
   instants_of_wall exc_cz 1698546600 = [1698539400; 1698543000].
 Proof. exact exc_readings. Qed.
 Print Assumptions C05_composite_example_readings.
+
+(* the classification in list form: the candidates' instants ARE the list instants_of_wall
+   ([classified z l m] is the None / Single / Ambiguous statement of the classification theorems;
+   [cand_instants l m] = [] / [l - off x] / [l - off x; l - off y]) *)
+Theorem C05_classified_list : forall z l m, classified z l m -> instants_of_wall z l = cand_instants l m.
+Proof. exact classified_list. Qed.
+Print Assumptions C05_classified_list.
+
+(** ** The glue at the level of VALUES (Proofs/C05Glue.v): Local.from_local_datetime returns
+    date-times.  [P4] = Proofs/C04.v ([ndt_ok]: a supported NaiveDateTime, [usecs] its second count
+    from day 1 CE, [dtz_ok], [frac]); [wsecs a] = seconds since the Unix epoch of a naive reading;
+    [dz_unix v] = the instant of a value; [supported t] = the instant is in NaiveDateTime's range
+    (C04's in_rng); [mlt_list] = the values of a MappedLocalTime, earliest first;
+    [value_at local off v] = v is a well-formed date-time with offset off, instant wsecs local - off,
+    the sub-second field of local, and naive_local v = local (C04_from_local_fails_iff,
+    C04_local_roundtrip). *)
+
+(* what the lookup is handed: the second count (C02) and its calendar year *)
+Theorem C05_glue_timestamp : forall local, P4.ndt_ok local ->
+  DateTime.dt_timestamp local = Val (wsecs local) /\
+  Date.d_year (DateTime.nd_date local) = utc_year (wsecs local).
+Proof. exact (fun local H => conj (ts_wall local H) (year_wall local H)). Qed.
+Print Assumptions C05_glue_timestamp.
+
+(* from the lookup's answer m to values: candidate by candidate; None as a whole when a candidate's
+   instant is unsupported *)
+Theorem C05_from_local_values_candidates : forall zone local m,
+  P4.ndt_ok local ->
+  find_local_time_type_from_local zone (utc_year (wsecs local)) (wsecs local) = Val (Ok m) ->
+  (forall o, contains m o -> off_ok o) ->
+  let l := wsecs local in
+  exists r, from_local_datetime zone local = Val r /\
+  if forallb supported (cand_instants l m)
+  then map dz_unix (mlt_list r) = cand_instants l m /\
+       Forall (fun v => value_at local (DateTime.dz_off v) v) (mlt_list r) /\
+       map DateTime.dz_off (mlt_list r) = mlt_list (mlt_map m ut_offset)
+  else r = MNone.
+Proof. exact from_local_values. Qed.
+Print Assumptions C05_from_local_values_candidates.
+(* ... None as a whole when a candidate offset is no FixedOffset; a panic exactly when the lookup fails *)
+Theorem C05_from_local_values_bad : forall zone local,
+  P4.ndt_ok local ->
+  match find_local_time_type_from_local zone (utc_year (wsecs local)) (wsecs local) with
+  | Val (Ok m) => (exists o, contains m o /\ ~ off_ok o) -> from_local_datetime zone local = Val MNone
+  | Val (Err _) => from_local_datetime zone local = Panic
+  | Panic => from_local_datetime zone local = Panic
+  | OutOfFuel => from_local_datetime zone local = OutOfFuel
+  end.
+Proof. exact from_local_values_bad. Qed.
+Print Assumptions C05_from_local_values_bad.
+
+(* against the oracle: whenever the lookup's answer classifies S(l) (the conclusion of
+   C05_classification_table / C05_rule_zone_classification / C05_composite_classification), the
+   date-times returned have exactly the instants S(l) = instants_of_wall, earliest first, each
+   reading [local] on its own wall clock; None as a whole when an instant of S(l) is unsupported *)
+Theorem C05_from_local_values : forall zone z local m,
+  P4.ndt_ok local -> let l := wsecs local in
+  find_local_time_type_from_local zone (utc_year l) l = Val (Ok m) ->
+  classified z l m ->
+  (forall o, In o (zone_offsets z) -> off_ok o) ->
+  let S := instants_of_wall z l in
+  exists r, from_local_datetime zone local = Val r /\
+  if forallb supported S
+  then map dz_unix (mlt_list r) = S /\
+       Forall (fun v => value_at local (DateTime.dz_off v) v) (mlt_list r)
+  else r = MNone.
+Proof. exact from_local_values_instants. Qed.
+Print Assumptions C05_from_local_values.
+
+(* end to end for a composite zone *)
+Theorem C05_from_local_values_composite : forall zone ps first a local,
+  let l := wsecs local in let r := conv_rule a in
+  let cz := mk_szone (ut_offset first) (offs ps) (Some (inr r)) in
+  P4.ndt_ok local ->
+  table_zone zone ps first -> extra_rule zone = Some (Alternate a) -> alt_ok a -> r_std r <> r_dst r ->
+  increasing (offs ps) = true -> spacing_table (offs ps) (ut_offset first) = true ->
+  footer_continues cz = true -> rule_year_hyps r (footer_year cz) ->
+  (footer_hi cz < l -> rule_reading_hyps a l) ->
+  excepted_wall cz l = false ->
+  (forall o, In o (zone_offsets cz) -> off_ok o) ->
+  let S := instants_of_wall cz l in
+  exists v, from_local_datetime zone local = Val v /\
+  if forallb supported S
+  then map dz_unix (mlt_list v) = S /\
+       Forall (fun x => value_at local (DateTime.dz_off x) x) (mlt_list v)
+  else v = MNone.
+Proof. exact from_local_values_composite. Qed.
+Print Assumptions C05_from_local_values_composite.
+
+(* inhabited: 2024-10-27T02:30:00 in the Berlin-like composite zone gives two date-times,
+   00:30:00Z (+02:00) then 01:30:00Z (+01:00) *)
+Theorem C05_from_local_values_example :
+  P4.ndt_ok exg_local /\ wsecs exg_local = 1729996200 /\
+  (forall o, In o (zone_offsets exc_cz) -> off_ok o) /\
+  forallb supported (instants_of_wall exc_cz 1729996200) = true /\
+  match from_local_datetime exc_zone exg_local with
+  | Val (MAmbiguous v w) => dz_unix v = 1729989000 /\ dz_unix w = 1729992600 /\
+                            DateTime.dz_off v = 7200 /\ DateTime.dz_off w = 3600
+  | _ => False
+  end.
+Proof. exact exg_facts. Qed.
+Print Assumptions C05_from_local_values_example.
 
 (** ** Known finding C05-closely-spaced-transitions: the spacing hypothesis of
     C05_classification_table / C05_roundtrip_table cannot be dropped *)
